@@ -139,7 +139,7 @@ pub fn score_table(rows: &[[f32; 5]], seq: &[u8]) -> Table {
     t
 }
 
-fn resolve_threshold(spec: ThresholdSpec, table: &Table, rows: &[[f32; 5]]) -> f32 {
+pub fn resolve_threshold(spec: ThresholdSpec, table: &Table, rows: &[[f32; 5]]) -> f32 {
     let mut finite: Vec<f32> = table.f32s.iter().copied().filter(|x| x.is_finite()).collect();
     finite.sort_by(|a, b| b.partial_cmp(a).unwrap());
     finite.dedup();
@@ -391,7 +391,7 @@ fn gen_len(r: &mut Prng, m: usize, class: u64, block_hint: usize) -> usize {
     }
 }
 
-fn gen_world(r: &mut Prng, idx: u64, prop: &str, forced: Option<(usize, usize)>) -> Sc {
+pub fn gen_world(r: &mut Prng, idx: u64, prop: &str, forced: Option<(usize, usize)>) -> Sc {
     let m = match forced {
         Some((_, m)) => m,
         None => match r.below(8) {
